@@ -187,33 +187,7 @@ def replay(iset, memarch, nregions, inputs, ob):
     pre_bad = []
     undo = []
     if kind == 'pre@callsite':
-        qn = ob['label']
-        owner, name, fn = _find(qn)
-        c0 = registry.l1().get(fn)
-        if c0 is not None:
-            _ORIG[qn] = c0
-        is_static = isinstance(owner.__dict__.get(name), staticmethod) if isinstance(owner, type) else False
-
-        def wrapper(*a, **k):
-            try:
-                ok = _native_pre(qn, list(a))
-            except Exception as e:      # noqa
-                ok = False
-            if not ok:
-                pre_bad.append([x if isinstance(x, (int, bool, slice)) else type(x).__name__ for x in a])
-            return fn(*a, **k)
-        # patch every namespace that imported the function by name
-        import sys
-        for mod in list(sys.modules.values()):
-            if mod is None or not getattr(mod, '__name__', '').startswith('armulator'):
-                continue
-            for k2, v2 in list(vars(mod).items()):
-                if v2 is fn:
-                    undo.append((mod, k2, v2))
-                    setattr(mod, k2, wrapper)
-        if isinstance(owner, type):
-            undo.append((owner, name, owner.__dict__[name]))
-            setattr(owner, name, staticmethod(wrapper) if is_static else wrapper)
+        pre_bad, undo = watch_precondition(ob['label'])
     exc = None
     snap0 = module_state_snapshot()
     try:
@@ -410,6 +384,39 @@ def replay(iset, memarch, nregions, inputs, ob):
 
 def _h(v):
     return hex(v) if isinstance(v, int) and not isinstance(v, bool) else repr(v)
+
+
+def watch_precondition(qn):
+    """patch the callee `qn` in every namespace of the package with a wrapper that evaluates its contract's
+    precondition natively on the actual arguments -> (list collecting violating argument tuples, undo list)"""
+    pre_bad = []
+    undo = []
+    owner, name, fn = _find(qn)
+    c0 = registry.l1().get(fn)
+    if c0 is not None:
+        _ORIG[qn] = c0
+    is_static = isinstance(owner.__dict__.get(name), staticmethod) if isinstance(owner, type) else False
+
+    def wrapper(*a, **k):
+        try:
+            ok = _native_pre(qn, list(a))
+        except Exception as e:      # noqa
+            ok = False
+        if not ok:
+            pre_bad.append([x if isinstance(x, (int, bool, slice)) else type(x).__name__ for x in a])
+        return fn(*a, **k)
+    import sys
+    for mod in list(sys.modules.values()):
+        if mod is None or not getattr(mod, '__name__', '').startswith('armulator'):
+            continue
+        for k2, v2 in list(vars(mod).items()):
+            if v2 is fn:
+                undo.append((mod, k2, v2))
+                setattr(mod, k2, wrapper)
+    if isinstance(owner, type):
+        undo.append((owner, name, owner.__dict__[name]))
+        setattr(owner, name, staticmethod(wrapper) if is_static else wrapper)
+    return pre_bad, undo
 
 
 def module_state_snapshot():
